@@ -8,6 +8,7 @@ import (
 	"os"
 	"regexp"
 	"sort"
+	"strconv"
 	"strings"
 	"time"
 
@@ -247,6 +248,12 @@ func cfgLoadEnv(c cfgCase) M {
 			out["cookieName"], out["cookieDomain"], out["cookieHTTPOnly"], out["cookieSecure"] = cc.Name, cc.Domain, cc.HTTPOnly, cc.Secure
 			d := conf.UpstreamConfigs.DefaultConfig.EmailConfig
 			out["defaultDomains"], out["defaultAddresses"] = nzs(d.AllowedDomains), nzs(d.AllowedAddresses)
+			dur := func(x time.Duration) string { return strconv.FormatInt(int64(x/time.Second), 10) + "s" }
+			out["got"] = M{"CLIENT_ID": conf.ClientConfig.ID, "CLIENT_SECRET": conf.ClientConfig.Secret,
+				"PROVIDER_URL_EXTERNAL": conf.ProviderConfig.ProviderURLConfig.External, "PROVIDER_URL_INTERNAL": conf.ProviderConfig.ProviderURLConfig.Internal,
+				"PROVIDER_SCOPE": conf.ProviderConfig.Scope, "SESSION_COOKIE_SECRET": cc.Secret, "SESSION_COOKIE_EXPIRE": dur(cc.Expire),
+				"UPSTREAM_DEFAULT_PROVIDER": conf.UpstreamConfigs.DefaultConfig.ProviderSlug, "UPSTREAM_DEFAULT_TIMEOUT": dur(conf.UpstreamConfigs.DefaultConfig.Timeout),
+				"UPSTREAM_SCHEME": conf.UpstreamConfigs.Scheme, "REQUESTSIGNER_KEY": conf.RequestSignerConfig.Key, "UPSTREAM_CONFIGFILE": conf.UpstreamConfigs.ConfigsFile}
 		} else {
 			out["error"] = err.Error()
 		}
@@ -446,6 +453,9 @@ func init() {
 		for _, ttl := range [][3]string{{"2h", "30s", "2s"}, {"10m", "5s", "0s"}, {"1h", "1m", "3h"}, {"24h", "90s", "45m"}} {
 			emit(cfgCase{LoadEnv: map[string]string{"UPSTREAM_CLUSTER": "prod", "SESSION_TTL_LIFETIME": ttl[0], "SESSION_TTL_VALID": ttl[1], "SESSION_TTL_GRACEPERIOD": ttl[2]}})
 		}
+		emit(cfgCase{LoadEnv: map[string]string{"UPSTREAM_CLUSTER": "prod", "CLIENT_ID": "the-proxy", "CLIENT_SECRET": "s3cret=with=equals", "PROVIDER_URL_EXTERNAL": "https://sso-auth.x.io",
+			"PROVIDER_URL_INTERNAL": "http://sso-auth.internal:4180", "PROVIDER_SCOPE": "a b", "SESSION_COOKIE_SECRET": "c2VjcmV0c2VjcmV0c2VjcmV0c2VjcmV0c2VjcmV0MTI=", "SESSION_COOKIE_EXPIRE": "48h",
+			"UPSTREAM_DEFAULT_PROVIDER": "okta", "UPSTREAM_DEFAULT_TIMEOUT": "45s", "UPSTREAM_SCHEME": "http", "REQUESTSIGNER_KEY": "-----BEGIN KEY-----\nabc=\n-----END KEY-----", "UPSTREAM_CONFIGFILE": "/etc/sso/upstreams.yml"}})
 		emit(cfgCase{LoadEnv: map[string]string{"UPSTREAM_CLUSTER": "prod", "SESSION_COOKIE_NAME": "_my_proxy", "SESSION_COOKIE_DOMAIN": "x.io", "SESSION_COOKIE_HTTPONLY": "false",
 			"UPSTREAM_DEFAULT_EMAIL_DOMAINS": "x.io,y.io", "UPSTREAM_DEFAULT_EMAIL_ADDRESSES": "ann@x.io"}})
 		O := func(f func(o *cfgOpts)) *cfgOpts { o := &cfgOpts{}; f(o); return o }
